@@ -27,6 +27,7 @@ import uuid
 import warnings
 import weakref
 from contextlib import AbstractContextManager, contextmanager
+from copy import deepcopy
 from gc import collect
 from getpass import getuser
 from io import BytesIO
@@ -302,6 +303,11 @@ class Workspace(AbstractContextManager):
             entity_type = Data
 
         entity_kwargs.pop("property_groups", None)
+
+        # the copy must not share mutable attribute values with its source
+        for key, value in entity_kwargs.items():
+            if isinstance(value, (dict, np.ndarray)):
+                entity_kwargs[key] = deepcopy(value)
 
         new_object = parent.workspace.create_entity(
             entity_type, **{"entity": entity_kwargs, "entity_type": entity_type_kwargs}
